@@ -34,6 +34,13 @@ KINDS_HI = ("p", "u", "uL", "dS", "dB", "d1")
 #  e   a result with an EMPTY value (a decoder that decoded to nothing): the engine discards it before anything else, so it must not
 #      open, close or shadow anything.  Only used by properties stated for "all registries" (C05); C06 excludes empty values by statement.
 KINDS_E = ("p", "q", "d1", "k", "e")
+#  results that carry the library's OWN vocabulary of labels and types although they come from another decoder: labels and types are free-form
+#  strings, only value-vs-covered-text (and supplied children) decides whether a result was decoded.  dM decoded + label "MixedCase",
+#  uM case variant + "MixedCase" (context), dU decoded + type network.url / label escape.percent, pS plain text typed "string" (context),
+#  dC decoded typed shell.cmd / label unescape.shell.carets
+#  dP decoded, but indistinguishable by (type, value, label) from the PLAIN hit "p" on the first bytes of the text: its value is T[0:b-a]
+#  (so on [0,k) it is that plain hit, anywhere else a decoded one) - whether a result was decoded is a fact about value vs covered text of THAT hit
+KINDS_LBL = ("p", "dM", "uM", "dU", "pS", "dP", "d1")
 TEXT_HI = b"\xe9b\xff\xc9d\xfe"
 MODES = ("r0", "rp", "rd", "rk")
 #  r0 nothing is found in decoded values           rp one plain hit on the first byte of any decoded value
@@ -77,6 +84,18 @@ def spec(T: bytes, a: int, b: int, kind: str):
         return ("s", v, "", a, b, [])
     if kind == "dB":
         return ("b", b"\xef\xbb\xbf" + cov, "bom", a, b, [])
+    if kind == "dM":
+        return ("m", b"Q" * (b - a), "MixedCase", a, b, [])
+    if kind == "uM":
+        return ("api", cov.upper(), "MixedCase", a, b, [])
+    if kind == "dU":
+        return ("network.url", b"u" + cov, "escape.percent", a, b, [])
+    if kind == "pS":
+        return ("string", cov, "", a, b, [])
+    if kind == "dC":
+        return ("shell.cmd", cov[1:] + b"c", "unescape.shell.carets", a, b, [])
+    if kind == "dP":
+        return ("p", T[0:b - a], "", a, b, [])
     if kind == "e":
         return ("e", b"", "e", a, b, [])
     if kind == "kk":
@@ -110,7 +129,7 @@ class Run:
 def registries(T: bytes, hits, mode: str, grouped: bool):
     """(model registry, impl registry) for a configuration.  hits: list of (a, b, kind)."""
     specs = [spec(T, a, b, k) for (a, b, k) in hits]
-    groups = [specs] if grouped else [[s] for s in specs]
+    groups = [specs] if grouped is True else [[s] for s in specs]
 
     def model_dec(group):
         return lambda value: list(group) if value == T else []
@@ -119,7 +138,24 @@ def registries(T: bytes, hits, mode: str, grouped: bool):
         return lambda value: [trees.mknode(s) for s in group] if value == T else []
 
     mreg = [model_dec(g) for g in groups] + [lambda value: mode_specs(mode, T, value)]
-    ireg = [impl_dec(g) for g in groups] + [lambda value: [trees.mknode(s) for s in mode_specs(mode, T, value)]]
+    if grouped == "shared":
+        # a registry is a list: the SAME callable may be listed more than once (one object per distinct hit spec, repeated in place)
+        cache = {}
+        ireg = [cache.setdefault(repr(g), impl_dec(g)) for g in groups]
+    elif grouped == "bound":
+        # entries that are equal (==) without being identical: bound methods of one object per distinct hit spec, taken anew per position
+        class Dec:
+            def __init__(self, group):
+                self.group = group
+
+            def find(self, value):
+                return [trees.mknode(s) for s in self.group] if value == T else []
+
+        cache = {}
+        ireg = [cache.setdefault(repr(g), Dec(g)).find for g in groups]
+    else:
+        ireg = [impl_dec(g) for g in groups]
+    ireg = ireg + [lambda value: [trees.mknode(s) for s in mode_specs(mode, T, value)]]
     return mreg, ireg
 
 
